@@ -274,6 +274,22 @@ def power(chk, prog):
         # arccos(cos t) is t on (0, pi): the logarithm's angle
         it = Interp(prog, intercepts={"np.arccos": lambda i, a_, k: t if to_obj(a_[0]).same(P.cos(t)) else P.fn("arccos", a_[0])})
         return to_obj(it.run(f, [expo], self_obj=quat_obj(it, q)))
+    # inequality-guarded arms (sign canonicalisation, small-angle series ...): each must return the same closed form wherever it is taken
+    from sa.lib import arms_agree
+    import math
+
+    def arms():
+        def run_o(oracle):
+            it = Interp(prog, oracle=oracle, intercepts={"np.arccos": lambda i, a_, k: t if to_obj(a_[0]).same(P.cos(t)) else P.fn("arccos", a_[0])})
+            return to_obj(it.run(f, [a], self_obj=quat_obj(it, q)))
+        samples = []
+        for tv in (0.2, 0.9, 1.5, 2.2, 2.9):
+            for av in (0.3, 1.0, 1.7, 2.6):
+                u1, u2 = 0.36, 0.48
+                samples.append({"pt": tv, "pa": av, "pu0": math.sqrt(1 - u1 * u1 - u2 * u2), "pu1": u1, "pu2": u2})
+        return arms_agree(run_o, np.concatenate([[P.cos(a * t)], u * P.sin(a * t)]), samples, "q**a")
+    chk.ob("POWER", f.ref + "::arms", "every inequality-guarded arm of __pow__ returns [cos(a t), u sin(a t)] on the rotations and exponents that reach it", arms,
+           construct="q**a on every arm", **kw)
     chk.ob("POWER", f.ref + "::a>0", "q**a == [cos(a t), u sin(a t)], a > 0", lambda: eq(run(a), np.concatenate([[P.cos(a * t)], u * P.sin(a * t)]), "q**a"), construct="q**a (a > 0)", **kw)
     chk.ob("POWER", f.ref + "::a<0", "q**(-a) == [cos(a t), -u sin(a t)], a > 0", lambda: eq(run(-a), np.concatenate([[P.cos(a * t)], -u * P.sin(a * t)]), "q**(-a)"), construct="q**a (a < 0)", **kw)
     chk.ob("POWER", f.ref + "::a=0", "q**0 == 1", lambda: eq(run(0), np.array([1, 0, 0, 0], dtype=object) * P.ONE, "q**0"), construct="q**0", **kw)
